@@ -217,14 +217,17 @@ impl Dictionary {
     {
         if let Some(user_lexicon_rdr) = user_lexicon_rdr {
             let mut user_lexicon = Lexicon::from_reader(user_lexicon_rdr, LexType::User)?;
-            if let Some(mapper) = self.data.mapper.as_ref() {
-                user_lexicon.map_connection_ids(mapper);
-            }
+            // Ids are checked before they are translated: the mapping is a permutation of
+            // the connector's ids, so it preserves validity, whereas translating an
+            // out-of-range id would index outside the mapper.
             if !user_lexicon.verify(self.connector()) {
                 return Err(VibratoError::invalid_argument(
                     "user_lexicon_rdr",
                     "includes invalid connection ids.",
                 ));
+            }
+            if let Some(mapper) = self.data.mapper.as_ref() {
+                user_lexicon.map_connection_ids(mapper);
             }
             self.data.user_lexicon = Some(user_lexicon);
         } else {
